@@ -115,6 +115,95 @@ def reviewed_sites(mir, syn, table):
     return out
 
 
+_WIN = re.compile(r"<impl \[T\]>::(windows|chunks_exact)$")
+_WIN_PASS = re.compile(r"^(std::iter::Iterator::\w+|std::option::Option::<T>::\w+|std::iter::IntoIterator::into_iter|<[^>]*(Windows|ChunksExact)<.*> as std::iter::\w+>::\w+|<std::iter::\w+<.*> as std::iter::Iterator>::\w+)$")
+
+
+def fixed_width_slices(mir):
+    """{body path: {local: N}}: locals that are - or carry, as an Option / iterator / reference - items of `slice.windows(N)` or
+    `slice.chunks_exact(N)` with a constant N >= 1: every such item has exactly N elements. Followed through plain copies and
+    references, through the std iterator / Option adapters, and into the first real parameter of a closure handed to such an adapter."""
+    cached = mir.__dict__.get("_fixed_width")
+    if cached is not None:
+        return cached
+    out = defaultdict(dict)
+    pending = []            # (closure path, N)
+    def run(b, seed):
+        t_ = out[b.path]
+        t_.update(seed)
+        clos = {}
+        for bb in b.bbs:
+            for s_ in bb.stmts:
+                if s_.rv == "Aggregate" and s_.detail.startswith("Closure|") and not s_.dst.proj:
+                    clos[s_.dst.local] = s_.detail.split("|", 1)[1]
+        for _ in range(8):
+            n0 = len(t_)
+            for bb in b.bbs:
+                if bb.cleanup:
+                    continue
+                for s_ in bb.stmts:
+                    if s_.rv in ("Use", "Ref", "RawPtr", "CopyForDeref", "Cast") and len(s_.ops) == 1 and s_.ops[0].place is not None and not s_.dst.proj \
+                            and s_.ops[0].place.local in t_ and not any(isinstance(p_, str) and p_.startswith("[") for p_ in s_.ops[0].place.proj):
+                        t_.setdefault(s_.dst.local, t_[s_.ops[0].place.local])
+                t = bb.term
+                if t.k != "call" or t.dst is None or t.dst.proj:
+                    continue
+                if _WIN.search(t.callee) and len(t.args) == 2 and t.args[1].const_value() and t.args[1].const_value()[1].isdigit() and int(t.args[1].const_value()[1]) >= 1:
+                    t_.setdefault(t.dst.local, int(t.args[1].const_value()[1]))
+                    continue
+                ns = [t_[a.place.local] for a in t.args if a.place is not None and a.place.local in t_]
+                if ns and _WIN_PASS.search(t.callee):
+                    t_.setdefault(t.dst.local, min(ns))
+                    for a in t.args:
+                        if a.place is not None and a.place.local in clos:
+                            pending.append((clos[a.place.local], min(ns)))
+            if len(t_) == n0:
+                break
+    for b in list(mir.fns.values()):
+        if b.kind != "Closure" and any(bb.term.k == "call" and _WIN.search(bb.term.callee) for bb in b.bbs):
+            run(b, {})
+    seen = set()
+    while pending:
+        cp, n_ = pending.pop()
+        if cp in seen or cp not in mir.fns:
+            continue
+        seen.add(cp)
+        run(mir.fns[cp], {2: n_})          # local 1 is the closure itself, local 2 its first argument
+    mir.__dict__["_fixed_width"] = dict(out)
+    return mir.__dict__["_fixed_width"]
+
+
+def _auto_bounds(mir, b, bb, t):
+    """`w[i]` with a constant i on an item of `windows(N)` / `chunks_exact(N)`, i < N"""
+    m = re.match(r"BoundsCheck \{ len: (?:move|copy) _(\d+), index: (?:move|copy) _(\d+) \}", t.msg)
+    fw = fixed_width_slices(mir).get(b.path)
+    if not m or not fw:
+        return False
+    len_l, idx_l = int(m.group(1)), int(m.group(2))
+    idx = None
+    for kind_, bb_, s_ in _def_of(b, idx_l):
+        if kind_ == "stmt" and s_.rv == "Use" and len(s_.ops) == 1 and s_.ops[0].const_value() and s_.ops[0].const_value()[1].isdigit():
+            idx = int(s_.ops[0].const_value()[1]) if idx is None else -1
+        else:
+            idx = -1
+    if idx is None or idx < 0:
+        return False
+    # the length is the metadata of a pointer / reference to a fixed-width item
+    cur, n = len_l, None
+    for _ in range(6):
+        ds = _def_of(b, cur)
+        if len(ds) != 1 or ds[0][0] != "stmt":
+            return False
+        s_ = ds[0][2]
+        if len(s_.ops) != 1 or s_.ops[0].place is None or any(isinstance(p_, str) and (p_.startswith("[") or p_.startswith(".")) for p_ in s_.ops[0].place.proj):
+            return False
+        cur = s_.ops[0].place.local
+        if cur in fw:
+            n = fw[cur]
+            break
+    return n is not None and idx < n
+
+
 def census(mir, syn=None):
     """-> Counter[(fn, kind)] and first location per key; fn is the function the site belongs to: the enclosing named function for
     closures, the caller for a private helper with a single caller (common.owner_root)"""
@@ -128,12 +217,16 @@ def census(mir, syn=None):
             t = bb.term
             keys = []
             if t.k == "assert" and t.kind not in ("NullPointerDereference", "MisalignedPointerDereference"):
-                if not _auto_arith(b, bb, t):
+                if t.kind == "BoundsCheck" and _auto_bounds(mir, b, bb, t):
+                    pass
+                elif not _auto_arith(b, bb, t):
                     m = re.match(r"(\w+)\((\w+)", t.msg)
                     op = m.group(2) if m and m.group(1) == "Overflow" else ""
                     keys.append(f"assert:{t.kind}{':' + op if op else ''}")
             if t.k == "call":
-                if is_panic_callee(t.callee):
+                if _WIN.search(t.callee) and len(t.args) == 2 and t.args[1].const_value() and t.args[1].const_value()[1].isdigit() and int(t.args[1].const_value()[1]) >= 1:
+                    pass            # `windows(N)` / `chunks_exact(N)` panic for N = 0 only
+                elif is_panic_callee(t.callee):
                     keys.append("call:" + short_callee(t.callee))
                 for a in t.args:
                     if a.kind == "fn" and is_panic_callee(a.const):
